@@ -78,6 +78,14 @@ class Fork(Exception):
         self.cond = cond
 
 
+class PathRaise(Exception):
+    """a call inlined inside an expression raises on the current path: the enclosing statement raises (the guards
+    collected before it in the same statement are tested first)"""
+
+    def __init__(self, exc):
+        self.exc = exc
+
+
 class Translator:
     """consts: python name -> (kind, coq text); records: class name -> (coq record constructor fields [(attr, field)])"""
 
@@ -90,6 +98,22 @@ class Translator:
         self.value_methods = {}     # (value kind, method name) -> fn(tr, base, args, node)   [for non-object values]
         self.value_attrs = {}       # (value kind, attribute name) -> fn(tr, base, node)
         self.value_subscripts = {}  # value kind -> fn(tr, base, slice node, env, heap, node)
+        self.value_methods_kw = {}  # (value kind, method name) -> fn(tr, base, args, kwargs, node)   [keywords allowed]
+        self.value_binops = {}      # (left kind, right kind, ast operator class name) -> fn(tr, a, b, node)
+        self.value_subscript_stores = {}  # value kind -> fn(tr, base, slice node, value, env, heap, node) -> new base
+        self.value_isinstance = {}  # opaque value kind -> set of class names it is an instance of
+        self.value_types = {}       # opaque value kind -> Coq type (elements of lists a for loop runs over)
+        self.object_renderers = {}  # class name -> fn(tr, obj, heap, ret) -> Coq term (instead of the record syntax)
+        # result style: how a raising function is typed and how Ok / an exception are written.  Default: the type
+        # `res` of Model/Interval.v, which forgets the exception class.
+        self.res_type, self.ok_ctor = "res", "Ok"
+        self.err_text = lambda exc: "Err"          # exception name -> Coq term
+        self.err_pat = "Err"                       # pattern matching any raised exception (and the term rebuilding it)
+        # "python": x / 0 raises ZeroDivisionError at the division.  "nan": numpy float64 operands, x / 0 does not
+        # raise; every path that divided by zero and then *returns normally* yields the exception-like result "nan"
+        # (the guard is deferred to the return; no later condition may depend on the quotient)
+        self.div_mode = "python"
+        self.cur_binders = []  # (coq name, binder text) of the definition being translated
         self.assume = {}       # condition text -> truth value assumed on the current path (see Fork)
         self.pending = []      # guards / option binds raised by the expression being evaluated (see with_pending)
         self.aux = []          # generated auxiliary Fixpoints (loops), in order
@@ -136,7 +160,7 @@ class Translator:
                     return n
                 if kind == "setter" and f"{name}.setter" in decs:
                     return n
-                if kind == "method" and not decs:
+                if kind == "method" and (not decs or decs == ["staticmethod"]):
                     return n
                 if kind == "method" and decs and not any(d == "property" or d.endswith(".setter") for d in decs):
                     _bad(n, "decorated method")
@@ -185,6 +209,9 @@ class Translator:
             _bad(node, "unary operator")
         if isinstance(node, ast.BinOp):
             a, b = self.expr(node.left, env, heap), self.expr(node.right, env, heap)
+            hook = self.value_binops.get((a[0], b[0], type(node.op).__name__))
+            if hook is not None:
+                return hook(self, a, b, node)
             if a[0] == "L" and b[0] in ("Q", "Z", "num") and a[1] in ("Q", "Z") and isinstance(node.op, (ast.Add, ast.Sub, ast.Mult)):
                 # numpy broadcasting: array op scalar
                 x = (a[1], "x_")
@@ -200,14 +227,14 @@ class Translator:
             for i, v in enumerate(node.values):
                 n0 = len(self.pending)
                 vals.append(self.truth(self.expr(v, env, heap), node))
-                if i > 0 and len(self.pending) != n0:
+                if len(self.pending) != n0 and any(x[0] != "static" for x in vals[:-1]):
                     _bad(node, "short-circuited operand can raise")
             is_and = isinstance(node.op, ast.And)
             out = []
             for v in vals:
                 if v[0] == "static":
                     if v[1] != is_and:          # False in and / True in or: decides (operands are pure)
-                        return ("static", not is_and) if not out else self._fold(out + [v], is_and)
+                        return ("static", not is_and)   # (earlier operands are pure terms; their guards stay pending)
                     continue
                 out.append(v)
             if not out:
@@ -309,6 +336,11 @@ class Translator:
         if isinstance(op, ast.Div):
             if k != "Q":
                 a, b = self.toQ(a), self.toQ(b)
+            if self.div_mode == "nan":
+                d = ("defer", f"(Qeq_bool {b[1]} 0)", "nan", f"({a[1]} / {b[1]})")
+                if d not in self.pending:
+                    self.pending.append(d)
+                return Qv(f"({a[1]} / {b[1]})")
             self.guard(f"(Qeq_bool {b[1]} 0)", "ZeroDivisionError")
             return Qv(f"({a[1]} / {b[1]})")
         if isinstance(op, ast.Mod):
@@ -382,8 +414,10 @@ class Translator:
             if tree[1] not in self.assume:
                 raise Fork(tree[1])
             tree = tree[2] if self.assume[tree[1]] else tree[3]
+        if tree[0] == "raise":
+            raise PathRaise(tree[1])
         if tree[0] != "ret":
-            _bad(node, "call that can raise or loop inside an expression")
+            _bad(node, "call that can loop inside an expression")
         return tree
 
     def absorb(self, heap, new):
@@ -398,6 +432,8 @@ class Translator:
             return ("L", k[1], text)
         if isinstance(k, tuple) and k[0] == "obj":
             return self.sym_object(k[1], text, heap)
+        if k == "None":
+            return NONE           # an attribute that is statically None in this configuration
         return (k, text)
 
     def sym_object(self, cname, var, heap):
@@ -480,6 +516,10 @@ class Translator:
         else:
             kw = {}
         fname = ast.unparse(f)
+        if isinstance(f, ast.Name) and f.id in env and env[f.id][0] == "fn":
+            fname = env[f.id][1]      # a parameter bound to a library function (e.g. comparator=np.amin)
+            if fname not in self.prims:
+                _bad(node, "call of a function value without a stated meaning")
         # -- ignored side-effect-free library calls
         if fname in ("warnings.warn",):
             return k(NONE, heap)
@@ -513,13 +553,8 @@ class Translator:
             _bad(node, "len of this kind of value")
         if fname == "isinstance" and len(node.args) == 2:
             v = self.expr(node.args[0], env, heap)
-            cname = ast.unparse(node.args[1])
-            if cname in self.consts and self.consts[cname][0] == "numtypes":
-                return k(("static", v[0] in ("Q", "Z", "num", "nat")), heap)
-            if self.find_class(cname) is None:
-                _bad(node, "isinstance of an unknown class")
-            r = v[0] == "ref" and self.is_subclass(heap[v[1]]["__class__"], cname)
-            return k(("static", r), heap)
+            alts = node.args[1].elts if isinstance(node.args[1], ast.Tuple) else [node.args[1]]
+            return k(("static", any([self.isinstance1(v, ast.unparse(c), heap, node) for c in alts])), heap)
         if fname == "hasattr" and len(node.args) == 2:
             v = self.expr(node.args[0], env, heap)
             a = self.expr(node.args[1], env, heap)
@@ -557,6 +592,8 @@ class Translator:
                 return self.call_def(d, args, kwv, heap, k)
             # obj.method(...)
             base = self.expr(f.value, env, heap)
+            if (base[0], f.attr) in self.value_methods_kw:
+                return k(self.value_methods_kw[(base[0], f.attr)](self, base, args, kwv, node), heap)
             if (base[0], f.attr) in self.value_methods:
                 if kw:
                     _bad(node, "keyword arguments of a value method")
@@ -566,8 +603,23 @@ class Translator:
             d = self.find_member(heap[base[1]]["__class__"], f.attr, "method")
             if d is None:
                 _bad(node, "unknown method")
+            if d.decorator_list:      # staticmethod (find_member admits nothing else): no self
+                return self.call_def(d, args, kwv, heap, k)
             return self.call_def(d, [base] + args, kwv, heap, k)
         _bad(node, "call")
+
+    def isinstance1(self, v, cname, heap, node):
+        if cname in self.consts and self.consts[cname][0] == "numtypes":
+            return v[0] in ("Q", "Z", "num", "nat")
+        if cname in self.consts and self.consts[cname][0] == "inttypes":
+            return v[0] in ("Z", "num", "nat")
+        if cname == "type(None)":
+            return v == NONE
+        if v[0] in self.value_isinstance:      # opaque value kinds: the classes they are instances of
+            return cname in self.value_isinstance[v[0]]
+        if self.find_class(cname) is None:
+            _bad(node, "isinstance of an unknown class")
+        return v[0] == "ref" and self.is_subclass(heap[v[1]]["__class__"], cname)
 
     def construct(self, cname, node, env, heap, k):
         args = [self.expr(a, env, heap) for a in node.args]
@@ -598,6 +650,7 @@ class Translator:
                 env[p] = self.expr(defaults[j], {}, heap)
         if len(args) > len(params):
             _bad(d, "too many arguments")
+        env["__params__"] = ("params", [env[p] for p in params])
         self._depth = getattr(self, "_depth", 0) + 1
         if self._depth > 40:
             _bad(d, "inlining depth (recursion?)")
@@ -627,15 +680,51 @@ class Translator:
                 finally:
                     del self.assume[f.cond]
             tree = self.mk_if(f.cond, branches[0], branches[1])
+        except PathRaise as r:
+            tree = ("raise", r.exc)
         finally:
             self.pending = saved
         # exceptions the evaluation of this statement's expressions can raise, outermost first
         for g in reversed(mine):
             if g[0] == "guard":
                 tree = self.mk_if(g[1], ("raise", g[2]), tree)
+            elif g[0] == "defer":
+                tree = self.defer(tree, g[1], g[2], g[3])
             else:
                 tree = ("bind", g[1], g[2], tree, g[3])
         return tree
+
+    def defer(self, t, cond, exc, taint):
+        """a guard that takes effect where the function returns normally (div_mode "nan")"""
+        if t[0] == "ret":
+            return ("if", cond, ("raise", exc), t)
+        if t[0] == "raise":
+            return t
+        if t[0] == "if":
+            if taint in t[1]:
+                raise TranslationError(f"condition depends on a quotient that may be nan: {t[1][:100]}")
+            return self.mk_if(t[1], self.defer(t[2], cond, exc, taint), self.defer(t[3], cond, exc, taint))
+        if t[0] == "bind":
+            if taint in t[1]:
+                raise TranslationError(f"index depends on a quotient that may be nan: {t[1][:100]}")
+            return ("bind", t[1], t[2], self.defer(t[3], cond, exc, taint), t[4])
+        if t[0] in ("loop", "loopr", "forret"):
+            if taint in t[1]:
+                raise TranslationError(f"loop depends on a quotient that may be nan: {t[1][:100]}")
+            return t[:3] + tuple(self.defer(x, cond, exc, taint) for x in t[3:])
+        raise TranslationError("tree")
+
+    def aliased(self, name, v, env, heap):
+        """conservative: is a value equal to v reachable from another local, a parameter or an attribute?"""
+        def inside(x):
+            if x == v:
+                return True
+            if isinstance(x, (tuple, list)):
+                return any(inside(y) for y in x)
+            if isinstance(x, dict):
+                return any(inside(y) for y in x.values())
+            return False
+        return any(inside(x) for n, x in env.items() if n != name) or inside(heap)
 
     def block1(self, stmts, env, heap, k_ret, k_end, fn):
         s, rest = stmts[0], stmts[1:]
@@ -645,9 +734,24 @@ class Translator:
         if isinstance(s, ast.Expr):
             if isinstance(s.value, ast.Constant) and isinstance(s.value.value, str):
                 return cont(env, heap)  # docstring
-            if isinstance(s.value, ast.Call):
-                return self.call(s.value, env, heap, lambda v, h: cont(env, h))
+            c = s.value
+            if isinstance(c, ast.Call) and isinstance(c.func, ast.Attribute) and c.func.attr == "append" \
+                    and isinstance(c.func.value, ast.Name) and env.get(c.func.value.id, NONE)[0] == "pylist":
+                # in-place growth of a list display held by exactly one local
+                nm = c.func.value.id
+                if len(c.args) != 1 or c.keywords:
+                    _bad(s, "append form")
+                if self.aliased(nm, env[nm], env, heap):
+                    _bad(s, "append to a list that may be shared")
+                v = self.expr(c.args[0], env, heap)
+                env = dict(env)
+                env[nm] = ("pylist", list(env[nm][1]) + [v])
+                return cont(env, heap)
+            if isinstance(c, ast.Call):
+                return self.call(c, env, heap, lambda v, h: cont(env, h))
             _bad(s, "expression statement")
+        if isinstance(s, ast.For):
+            return self.for_loop(s, env, heap, cont, k_ret, fn)
         if isinstance(s, ast.Return):
             if s.value is None:
                 return k_ret(NONE, heap)
@@ -732,12 +836,131 @@ class Translator:
             heap = copy.deepcopy(heap)
             heap[base[1]][tgt.attr] = v
             return cont(env, heap)
+        if isinstance(tgt, ast.Subscript) and isinstance(tgt.value, ast.Name) and tgt.value.id in env \
+                and env[tgt.value.id][0] in self.value_subscript_stores:
+            nm = tgt.value.id
+            if self.aliased(nm, env[nm], env, heap):
+                _bad(s, "store into an array that may be shared")
+            new = self.value_subscript_stores[env[nm][0]](self, env[nm], tgt.slice, v, env, heap, s)
+            env = dict(env)
+            env[nm] = new
+            return cont(env, heap)
         _bad(s, "assignment target")
 
     def mk_if(self, c, t1, t2):
         if t1 == t2:
             return t1
         return ("if", c, t1, t2)
+
+    def for_loop(self, s, env, heap, cont, k_ret, fn):
+        """for <target> in <python list display known at translation time>: unrolled.
+        for x in <Coq list>: see for_find."""
+        if s.orelse:
+            _bad(s, "for-else")
+        it = self.expr(s.iter, env, heap)
+        if it[0] == "L":
+            return self.for_find(s, it, env, heap, cont, k_ret, fn)
+        if it[0] != "pylist":
+            _bad(s, "for over this kind of value")
+        items = it[1]
+
+        def step(i, env, heap):
+            if i == len(items):
+                return cont(env, heap)
+            return self.assign(s.target, items[i], env, heap,
+                               lambda e, h: self.block(s.body, e, h, k_ret, lambda e2, h2: step(i + 1, e2, h2), fn), s)
+        return step(0, env, heap)
+
+    def for_find(self, s, it, env, heap, cont, k_ret, fn):
+        """for x in <Coq list>: <ifs whose leaves are `return <x | number | bool>` or fall through>
+        ->  a structural Fixpoint over the list returning the first returned value (None: the loop ran to its end);
+        the body may not assign, store or raise"""
+        import re
+        if not isinstance(s.target, ast.Name):
+            _bad(s, "for target")
+        var, ek = s.target.id, it[1]
+        h2, env2 = copy.deepcopy(heap), dict(env)
+        used = {n.id for n in ast.walk(s) if isinstance(n, ast.Name)}
+        ro = sorted(n for n in used if n in env and n != var and env[n][0] in ("Q", "Z"))
+        for nm in ro:
+            env2[nm] = (env[nm][0], nm)
+        if isinstance(ek, tuple) and ek[0] == "obj":
+            env2[var] = self.sym_object(ek[1], "x_", h2)
+            ety = self.records[ek[1]][0]
+        elif ek in ("Q", "Z"):
+            env2[var], ety = (ek, "x_"), ek
+        elif ek in self.value_types:
+            env2[var], ety = (ek, "x_"), self.value_types[ek]
+        else:
+            _bad(s, "for over a list of this element kind")
+        h0 = copy.deepcopy(h2)
+        try:
+            body = self.block(s.body, dict(env2), h2, lambda v, h: ("ret", v, h), lambda e, h: ("next", e, h), fn)
+        except PathRaise:
+            _bad(s, "loop body raises")
+        kinds = set()
+
+        def check(t):
+            if t[0] == "if":
+                check(t[2])
+                check(t[3])
+            elif t[0] == "ret":
+                if t[2] != h0:
+                    _bad(s, "loop body stores an attribute")
+                if t[1] == env2[var]:
+                    kinds.add("elem")
+                elif t[1][0] in ("Q", "Z", "B", "static"):
+                    kinds.add("B" if t[1][0] == "static" else t[1][0])
+                else:
+                    _bad(s, "value returned from inside a for loop")
+            elif t[0] == "next":
+                if t[2] != h0:
+                    _bad(s, "loop body stores an attribute")
+                if set(t[1]) - {var} != set(env2) - {var} or any(t[1][n] != env2[n] for n in env2 if n != var):
+                    _bad(s, "loop body assigns a local variable")
+            else:
+                _bad(s, "loop body can raise or loops")
+        check(body)
+        if len(kinds) != 1:
+            _bad(s, "for loop without a return, or returning values of different kinds")
+        rk = kinds.pop()
+        rty = ety if rk == "elem" else {"Q": "Q", "Z": "Z", "B": "bool"}[rk]
+
+        def texts(t):
+            if t[0] == "if":
+                return [t[1]] + texts(t[2]) + texts(t[3])
+            return [self.render_val(t[1], t[2], rty)] if t[0] == "ret" and rk != "elem" else []
+        toks = set(re.findall(r"[A-Za-z_][A-Za-z_0-9']*", " ".join(texts(body))))
+        extra = [(nm, b) for nm, b in self.cur_binders if nm in toks and nm not in ro]
+        if any(nm in ro or nm in ("x_", "r_", "l_") for nm, _ in self.cur_binders if nm in toks):
+            _bad(s, "a loop variable has the name of a parameter of the definition")
+        rec = " ".join(["@NAME@"] + [nm for nm, _ in extra] + ro + ["r_"])
+
+        def rend(t):
+            if t[0] == "if":
+                return f"(if {t[1]} then {rend(t[2])} else {rend(t[3])})"
+            if t[0] == "next":
+                return rec
+            return "Some x_" if rk == "elem" else f"Some ({self.render_val(t[1], t[2], rty)})"
+        params = " ".join([b for _, b in extra] + [f"({nm} : {env[nm][0]})" for nm in ro])
+        text = (f"Fixpoint @NAME@ {params} (l_ : list ({ety})) : option ({rty}) :=\n"
+                f"  match l_ with\n  | nil => None\n  | cons x_ r_ => {rend(body)}\n  end.")
+        table = self.__dict__.setdefault("aux_by_text", {})
+        if text not in table:
+            idx = sum(1 for k2 in self.aux_names if k2[0] == fn.name and len(k2) == 3 and k2[1] == "for")
+            name = f"{fn.name}_for{idx}"
+            self.aux.append(text.replace("@NAME@", name))
+            self.aux_names[(fn.name, "for", len(table))] = (name, ro, text)
+            table[text] = name
+        cnt = self._fresh = getattr(self, "_fresh", 0) + 1
+        ovar = f"o_{cnt}"
+        h_some = copy.deepcopy(heap)
+        if rk == "elem" and isinstance(ek, tuple):
+            val = self.sym_object(ek[1], ovar, h_some)
+        else:
+            val = (ek if rk == "elem" else rk, ovar)
+        args = " ".join([nm for nm, _ in extra] + [env[n][1] for n in ro] + [it[2]])
+        return ("forret", f"{table[text]} {args}", ovar, k_ret(val, h_some), cont(env, heap))
 
     def loop(self, s, env, heap, cont, fn):
         """while c: <assignments to local number variables>  ->  Fixpoint with fuel"""
@@ -759,18 +982,21 @@ class Translator:
                 _bad(s, f"loop variable {nm} is not a number")
             kinds.append(env[nm][0])
         key = (fn.name, s.lineno)
-        if key not in self.aux_names:
-            idx = sum(1 for k2 in self.aux_names if k2[0] == fn.name)
-            name = f"{fn.name}_loop{idx}"
-            sym = dict(env)
-            for nm, kd in zip(assigned, kinds):
-                sym[nm] = (kd, nm)
-            # read-only variables the loop mentions
-            used = {n.id for n in ast.walk(s) if isinstance(n, ast.Name)}
-            ro = sorted(n for n in used if n in env and n not in assigned and env[n][0] in ("Q", "Z"))
-            for nm in ro:
-                sym[nm] = (env[nm][0], nm)
+        if key in self.aux_names and self.aux_names[key][2] is None:
+            name, ro = self.aux_names[key][:2]        # a plain loop already translated
+            return self._loop_call(name, ro, [], False, assigned, kinds, env, heap, cont)
+        sym = dict(env)
+        for nm, kd in zip(assigned, kinds):
+            sym[nm] = (kd, nm)
+        # read-only variables the loop mentions
+        used = {n.id for n in ast.walk(s) if isinstance(n, ast.Name)}
+        ro = sorted(n for n in used if n in env and n not in assigned and env[n][0] in ("Q", "Z"))
+        for nm in ro:
+            sym[nm] = (env[nm][0], nm)
+        saved, self.pending = self.pending, []
+        try:
             cond = self.truth(self.expr(s.test, sym, heap), s)
+            cond_p, self.pending = self.pending, []
             if cond[0] == "static":
                 _bad(s, "loop condition decided at translation time")
             body_env = dict(sym)
@@ -782,24 +1008,72 @@ class Translator:
                     ast.copy_location(v, st)
                     ast.fix_missing_locations(v)
                     body_env[st.target.id] = self.expr(v, body_env, heap)
-            ty = {"Q": "Q", "Z": "Z"}
+            body_p = self.pending
+        except (Fork, PathRaise):
+            _bad(s, "call that branches or raises inside a loop")
+        finally:
+            self.pending = saved
+        ty = {"Q": "Q", "Z": "Z"}
+        rty = " * ".join(ty[k] for k in kinds)
+        nxt = " ".join(self.unify(body_env[nm], (kd, "0"), s)[0][1] for nm, kd in zip(assigned, kinds))
+        cur = ", ".join(assigned)
+        # Coq variables of the enclosing definition that the loop reads through objects / arrays
+        import re
+        texts = " ".join([cond[1], nxt] + [g[1] for g in cond_p + body_p])
+        toks = set(re.findall(r"[A-Za-z_][A-Za-z_0-9']*", texts))
+        extra = [(nm, b) for nm, b in self.cur_binders if nm in toks and nm not in ro and nm not in assigned]
+        if any(nm in ro or nm in assigned for nm, _ in self.cur_binders if nm in toks and (nm, _) not in extra):
+            _bad(s, "a loop variable has the name of a parameter of the definition")
+        raising = bool(cond_p or body_p)
+        if not raising and not extra:
+            idx = sum(1 for k2 in self.aux_names if k2[0] == fn.name)
+            name = f"{fn.name}_loop{idx}"
             params = " ".join(f"({nm} : {ty[k]})" for nm, k in zip(ro + assigned, [env[n][0] for n in ro] + kinds))
-            rty = " * ".join(ty[k] for k in kinds)
-            nxt = " ".join(self.unify(body_env[nm], (kd, "0"), s)[0][1] for nm, kd in zip(assigned, kinds))
-            cur = ", ".join(assigned)
             text = (f"Fixpoint {name} (fuel : nat) {params} : option ({rty}) :=\n"
                     f"  match fuel with\n  | O => None\n"
                     f"  | S fuel' => if {cond[1]} then {name} fuel' {' '.join(ro)} {nxt} else Some ({cur})\n  end.")
             self.aux.append(text)
-            self.aux_names[key] = (name, ro)
-        name, ro = self.aux_names[key]
+            self.aux_names[key] = (name, ro, None)
+            return self._loop_call(name, ro, [], False, assigned, kinds, env, heap, cont)
+        # general form: the condition / the body can raise (indexing), or reads parameters of the definition
+        if any(g[0] == "defer" for g in cond_p + body_p):
+            _bad(s, "division that may give nan inside a loop")
+        params = " ".join([b for _, b in extra] +
+                          [f"({nm} : {ty[k]})" for nm, k in zip(ro + assigned, [env[n][0] for n in ro] + kinds)])
+
+        def wrap(pend, inner):
+            for g in reversed(pend):
+                if g[0] == "guard":
+                    inner = f"if {g[1]} then Some {self.err_text(g[2])} else {inner}"
+                else:
+                    inner = f"match {g[1]} with Some {g[2]} => {inner} | None => Some {self.err_text(g[3])} end"
+            return inner
+        okc = f"Some ({self.ok_ctor} ({cur}))" if raising else f"Some ({cur})"
+        rec = " ".join(["@NAME@", "fuel'"] + [nm for nm, _ in extra] + ro) + " " + nxt
+        body = wrap(cond_p, f"if {cond[1]} then {wrap(body_p, rec)} else {okc}")
+        # bound variables get loop-local names, so that the same loop always has the same text
+        for i, g in enumerate(x for x in cond_p + body_p if x[0] == "bind"):
+            body = re.sub(r"\b%s\b" % re.escape(g[2]), f"w_{i}", body)
+        rtype = f"option ({self.res_type} ({rty}))" if raising else f"option ({rty})"
+        text = (f"Fixpoint @NAME@ (fuel : nat) {params} : {rtype} :=\n"
+                f"  match fuel with\n  | O => None\n  | S fuel' => {body}\n  end.")
+        table = self.__dict__.setdefault("aux_by_text", {})
+        if text not in table:
+            idx = sum(1 for k2 in self.aux_names if k2[0] == fn.name and not (len(k2) == 3 and k2[1] == "for"))
+            name = f"{fn.name}_loop{idx}"
+            self.aux.append(text.replace("@NAME@", name))
+            self.aux_names[(fn.name, s.lineno, len(table))] = (name, ro, text)
+            table[text] = name
+        return self._loop_call(table[text], ro, [nm for nm, _ in extra], raising, assigned, kinds, env, heap, cont)
+
+    def _loop_call(self, name, ro, extra, raising, assigned, kinds, env, heap, cont):
         cnt = self._fresh = getattr(self, "_fresh", 0) + 1
         new = [f"{nm}_{cnt}" for nm in assigned]
         env2 = dict(env)
         for nm, nn, kd in zip(assigned, new, kinds):
             env2[nm] = (kd, nn)
-        args = " ".join([env[n][1] for n in ro] + [env[n][1] for n in assigned])
-        return ("loop", f"{name} fuel {args}", new, cont(env2, heap))
+        args = " ".join(extra + [env[n][1] for n in ro] + [env[n][1] for n in assigned])
+        return ("loopr" if raising else "loop", f"{name} fuel {args}", new, cont(env2, heap))
 
     # ------------------------------------------------------------------ driver / rendering
     def translate(self, name, target, params, ret, comment=""):
@@ -835,6 +1109,7 @@ class Translator:
             else:
                 raise TranslationError(f"parameter kind {kind}")
         self._depth = 0
+        self.cur_binders = [(b[1:].split(" : ")[0].strip(), b) for b in binders]
         k = lambda v, h: ("ret", v, h)
         if target[0] == "func":
             d = self.find_func(target[1])
@@ -855,7 +1130,7 @@ class Translator:
         else:
             raise TranslationError("target")
         has_raise = self.any_node(tree, "raise")
-        has_loop = self.any_node(tree, "loop")
+        has_loop = self.any_node(tree, "loop") or self.any_node(tree, "loopr")
         has_none = self.any_ret(tree, lambda v: v == NONE)
         has_val = self.any_ret(tree, lambda v: v != NONE)
         opt_val = has_none and has_val
@@ -864,7 +1139,7 @@ class Translator:
         if opt_val:
             ty = f"option ({ty})"
         if has_raise:
-            ty = f"res ({ty})"
+            ty = f"{self.res_type} ({ty})"
         if has_loop:
             ty = f"option ({ty})"
             binders = ["(fuel : nat)"] + binders
@@ -872,14 +1147,16 @@ class Translator:
         return f"{cm}Definition {name} {' '.join(binders)} : {ty} :=\n  {body}."
 
     def any_node(self, t, tag):
-        if t[0] == tag or (tag == "raise" and t[0] == "bind"):
+        if t[0] == tag or (tag == "raise" and t[0] in ("bind", "loopr")):
             return True
         if t[0] == "bind":
             return self.any_node(t[3], tag)
         if t[0] == "if":
             return self.any_node(t[2], tag) or self.any_node(t[3], tag)
-        if t[0] == "loop":
+        if t[0] in ("loop", "loopr"):
             return self.any_node(t[3], tag)
+        if t[0] == "forret":
+            return self.any_node(t[3], tag) or self.any_node(t[4], tag)
         return False
 
     def any_ret(self, t, pred):
@@ -889,8 +1166,10 @@ class Translator:
             return self.any_ret(t[3], pred)
         if t[0] == "if":
             return self.any_ret(t[2], pred) or self.any_ret(t[3], pred)
-        if t[0] == "loop":
+        if t[0] in ("loop", "loopr"):
             return self.any_ret(t[3], pred)
+        if t[0] == "forret":
+            return self.any_ret(t[3], pred) or self.any_ret(t[4], pred)
         return False
 
     def render_val(self, v, heap, ret):
@@ -904,13 +1183,19 @@ class Translator:
             return v[2]
         if v[0] == "tup":
             return "(" + ", ".join(self.render_val(x, heap, ret) for x in v[1]) + ")"
+        if v[0] == "symobj":
+            return v[2]
+        if v[0] == "ref" and heap[v[1]]["__class__"] in self.object_renderers:
+            return self.object_renderers[heap[v[1]]["__class__"]](self, heap[v[1]], heap, ret)
         if v[0] == "ref":
             obj = heap[v[1]]
             rec, fields = self.records[obj["__class__"]]
             extra = set(obj) - {"__class__"} - {a for a, _, _ in fields}
             if extra:
                 raise TranslationError(f"object of class {obj['__class__']} carries attributes outside its record: {sorted(extra)}")
-            return "{| " + "; ".join(f"{fld} := {self.toQ(obj[a])[1] if k == 'Q' else obj[a][1]}" for a, fld, k in fields) + " |}"
+            return "{| " + "; ".join(
+                f"{fld} := {self.toQ(obj[a])[1] if k == 'Q' else self.render_val(obj[a], heap, ret) if obj[a][0] == 'ref' else obj[a][1]}"
+                for a, fld, k in fields) + " |}"
         if v[0] in getattr(self, "renderers", {}):
             return self.renderers[v[0]](self, v)
         raise TranslationError(f"cannot render a value of kind {v[0]}")
@@ -926,24 +1211,33 @@ class Translator:
                 if opt_val:
                     s = f"Some ({s})"
             if has_raise:
-                s = f"Ok ({s})"
+                s = f"{self.ok_ctor} ({s})"
             if has_loop:
                 s = f"Some ({s})"
             return s
         if t[0] == "raise":
-            return "Some Err" if has_loop else "Err"
+            return f"Some {self.err_text(t[1])}" if has_loop else self.err_text(t[1])
         if t[0] == "if":
             a = self.render(t[2], ret, has_raise, has_loop, opt_val, ind + "  ")
             b = self.render(t[3], ret, has_raise, has_loop, opt_val, ind + "  ")
             return f"if {t[1]}\n{ind}then {a}\n{ind}else {b}"
         if t[0] == "bind":
             sub = self.render(t[3], ret, has_raise, has_loop, opt_val, ind + "  ")
-            err = "Some Err" if has_loop else "Err"
+            err = f"Some {self.err_text(t[4])}" if has_loop else self.err_text(t[4])
             return f"match {t[1]} with\n{ind}| Some {t[2]} => {sub}\n{ind}| None => {err}\n{ind}end"
         if t[0] == "loop":
             pat = ", ".join(t[2])
             sub = self.render(t[3], ret, has_raise, has_loop, opt_val, ind + "  ")
             return f"match {t[1]} with\n{ind}| None => None\n{ind}| Some ({pat}) => {sub}\n{ind}end"
+        if t[0] == "forret":
+            a = self.render(t[3], ret, has_raise, has_loop, opt_val, ind + "  ")
+            b = self.render(t[4], ret, has_raise, has_loop, opt_val, ind + "  ")
+            return f"match {t[1]} with\n{ind}| Some {t[2]} => {a}\n{ind}| None => {b}\n{ind}end"
+        if t[0] == "loopr":
+            pat = ", ".join(t[2])
+            sub = self.render(t[3], ret, has_raise, has_loop, opt_val, ind + "  ")
+            return (f"match {t[1]} with\n{ind}| None => None\n{ind}| Some {self.err_pat} => Some {self.err_pat}\n"
+                    f"{ind}| Some ({self.ok_ctor} ({pat})) => {sub}\n{ind}end")
         raise TranslationError("tree")
 
 
